@@ -1044,7 +1044,7 @@ def check_c18(tier, seed):
     combos = sum(val for k, val in merged.notes.items() if k.startswith("combinations["))
     cov = {"states": int(combos), "transitions": merged.evaluations, "traces_validated_against_impl": merged.traces,
            "evaluations": merged.evaluations, "distinct_nontrivial": merged.distinct,
-           "rule": "operation menu of 20 operations (every public function; private objects, read-only use of shared key schedules / parallel objects, and distinct objects writing adjacent byte-exact slices of one output array); all ordered pairs as two coroutines and selected "
+           "rule": "operation menu of 21 operations (every public function; private objects, read-only use of shared key schedules / parallel objects, distinct objects set up from shared const key / tweak / counter buffers, and distinct objects writing adjacent byte-exact slices of one output array); all ordered pairs as two coroutines and selected "
                    "triples, preemption bound %d, scheduling points at accesses to the conflict set W discovered from instrumented loads/stores (library built with clang trace-loads/trace-stores); "
                    "with W empty there is one equivalence class per combination and one execution decides it; states = thread combinations explored, transitions = executions run under the scheduler. "
                    "Positive control (harness-owned lost update, needs one preemption) must be found in every run. Free-running ThreadSanitizer pass over the same bodies on real threads." % (3 if tier == "thorough" else 2),
